@@ -186,7 +186,10 @@ def run(ctx):
         if rng.random() < 0.04 and numbered > 0:
             # a phase that is not a finite number is accepted by ps() and Parameter: if the circuit can be built with it,
             # it can be asked to be drawn
-            v = float(rng.choice([float("nan"), float("inf"), float("-inf")]))
+            from fractions import Fraction
+            odd = [float("nan"), float("inf"), float("-inf"), 1.7e308, -1.7e308, Fraction(1, 2), Fraction(-7, 3),
+                   np.float16(60000), 10 ** 400]
+            v = odd[int(rng.integers(len(odd)))]     # ... or is too large to have a nearest multiple of pi/4, or is a Fraction
             try:
                 r = rng.random()
                 c.ps(int(rng.integers(numbered)), v if r < 0.5 else lw.Parameter(v, label="phi" if r < 0.75 else None))
